@@ -65,7 +65,10 @@ check(
 check(
     "C03",
     runs=[dict(harness="C03_arith", flavour="plain"),
-          dict(harness="C03_arith", flavour="asan", tiers=("quick", "thorough"))],
+          dict(harness="C03_arith", flavour="asan", tiers=("quick", "thorough")),
+          # thorough only: the quick workload once more on the shipped -O2 build under valgrind memcheck (definedness, accesses past red zones)
+          dict(harness="C03_arith", flavour="plain", wrapper="memcheck", tiers=("thorough",), harness_tier="quick",
+               timeout={"quick": 3600, "thorough": 14400})],
     rule=("random programs of 1..6 operator applications over a pool of two real and two complex arrays (length 0..64 mostly, sampled "
           "to 10^4; values from {0,-0,+-1,+-i, log-uniform 1e-100..1e100}); 34 statement kinds cover every accepted operator x operand "
           "type combination (array/array, array/scalar, scalar/array, compound, aliasing a op= a, a = a op a, unary, copy). One "
@@ -73,7 +76,7 @@ check(
           "operand snapshots; plus mask/index-list selection, concatenation, zeropad and length-mismatch cases. non-trivial = "
           "non-empty arrays; distinct = hash of (combination, operator, length, leading operand bits)."),
     min_distinct={"quick": 20000, "thorough": 300000},
-    technique="runtime monitor: per-operation scalar interpreter in long double complex + bitwise value-semantics snapshots, repeated under ASan/UBSan",
+    technique="runtime monitor: per-operation scalar interpreter in long double complex + bitwise value-semantics snapshots, repeated under ASan/UBSan (thorough: also under valgrind memcheck on the -O2 build)",
     level_text=("Each operator application of the generated programs is compared with the textbook formula evaluated in extended "
                 "precision and every operand is compared bitwise with its snapshot; the same workload is repeated under "
                 "AddressSanitizer+UBSan. Held on the applications counted in the evidence."),
@@ -85,7 +88,10 @@ check(
 check(
     "C04",
     runs=[dict(harness="C04_slice", flavour="asan", opts={"bigscale": "0.25"}),
-          dict(harness="C04_slice", flavour="plain")],
+          dict(harness="C04_slice", flavour="plain"),
+          # thorough only: the quick workload on the shipped -O2 build under valgrind memcheck
+          dict(harness="C04_slice", flavour="plain", wrapper="memcheck", tiers=("thorough",), harness_tier="quick",
+               opts={"bigscale": "0.1"}, timeout={"quick": 3600, "thorough": 14400})],
     rule=("exhaustive (n,i1,i2,step) with n in 0..10, i1,i2 in [-n-3,n+3], step in [-5,5] for real and complex arrays, mutable and const, "
           "plus the end placeholder: throw/no-throw against the statement's rules, nine read forms (array from slice, *slice, iteration, "
           "copies of slice_t/const_slice_t, const_slice_t(slice_t)) against the Python index list, and writes of scalar / array / "
@@ -95,7 +101,7 @@ check(
     exhaustive_subspaces={"quick": ["all (n<=10, i1, i2, step) tuples x {real,complex} x {mutable,const,end}", "all aliasing slice pairs for n<=6"],
                           "thorough": ["all (n<=10, i1, i2, step) tuples x {real,complex} x {mutable,const,end}", "all aliasing slice pairs for n<=8"]},
     min_distinct={"quick": 20000, "thorough": 100000},
-    technique="runtime monitor: Python slice.indices reference + sentinel-array write oracle, under AddressSanitizer/UBSan",
+    technique="runtime monitor: Python slice.indices reference + sentinel-array write oracle, under AddressSanitizer/UBSan (thorough: also under valgrind memcheck on the -O2 build)",
     level_text=("The complete small tuple space of the quantifier is executed (reads, writes of every right-hand-side kind and length, "
                 "all aliasing pairs) against an index-list reference while ASan watches the array's heap block; held on the "
                 "evaluations counted in the evidence."),
@@ -118,19 +124,24 @@ check(
           "ASan+UBSan NDEBUG build; allowed outcomes: normal return or C++ exception. distinct = (template, variant code)."),
     min_distinct={"quick": 5000, "thorough": 50000},
     min_obs={"quick": {"outcome_returned": 1000, "outcome_threw": 300}, "thorough": {"outcome_returned": 1000, "outcome_threw": 300}},
-    technique="runtime monitor: fork-per-case execution under AddressSanitizer+UBSan (NDEBUG, DSPLIB_ASSUME live), exit-status classifier, logical step budget hook, watchdog with re-run",
+    technique="runtime monitor: fork-per-case execution under AddressSanitizer+UBSan (NDEBUG, DSPLIB_ASSUME live), exit-status classifier, logical step budget hook, watchdog with re-run; a sample of the same programs under valgrind memcheck on the -O2 build",
     level_text=("Each generated call program is executed in its own process of the sanitized shipped configuration and classified by "
                 "exit status / sanitizer report; termination is decided on the step-counter hook where one exists and otherwise by a "
                 "generous watchdog with one re-run. Held on the programs counted in the evidence."),
     level_note="trusted: gcc ASan/UBSan (red-zone detection misses non-adjacent and intra-object overflows); ASan's out-of-memory abort is counted as std::bad_alloc",
     assumptions=["numeric parameters are kept inside the documented ranges; array lengths, index entries and right-hand-side lengths are free",
+                 "valgrind's abort on a failed operator new ('cannot throw exceptions') is likewise treated as std::bad_alloc; the memcheck run covers 40 (quick) / 1500 (thorough) variants per template and 100 / 8000 programs",
                  "an ASan 'out-of-memory/allocation-size-too-big' abort is treated as the std::bad_alloc it replaces"],
 )
 
 check(
     "C06",
     runs=[dict(harness="C06_framing", flavour="plain"),
-          dict(harness="C06_framing", flavour="asan", opts={"kmax": "7", "scale": "0.5"})],
+          dict(harness="C06_framing", flavour="asan", opts={"kmax": "7", "scale": "0.5"}),
+          # thorough only: a reduced quick workload on the shipped -O2 build under valgrind memcheck (state carried between frames
+          # must never be read before it was written)
+          dict(harness="C06_framing", flavour="plain", wrapper="memcheck", tiers=("thorough",), harness_tier="quick",
+               opts={"kmax": "6", "scale": "0.25"}, timeout={"quick": 3600, "thorough": 14400})],
     rule=("each of ~115 processor configurations (FirFilter R/C, FftFilter R/C, FIRDecimator, FIRInterpolator, FIRRateConverter incl. 160/441 "
           "and 147/160, FIRResampler, Delay R/C, MedianFilter, MAFilter R/C, HilbertFilter, Tuner, Agc R/C, Compressor, Limiter, NoiseGate, "
           "LMS/NLMS R/C, RLS R/C with lock toggles on sample indices): every composition of k granules (k<=9 quick, k<=12 thorough; asan "
@@ -141,7 +152,7 @@ check(
                           "thorough": ["all 2^(k-1) framings of k<=12 granules per configuration (k<=6 for granules above 500 samples)"]},
     min_distinct={"quick": 20000, "thorough": 200000},
     min_obs={"quick": {"interleaved_instance_pairs": 100}, "thorough": {"interleaved_instance_pairs": 100}},
-    technique="runtime monitor: differential check over framing histories (whole-stream run vs framed run of the same binary), plus instance-interleaving monitor; short part repeated under ASan",
+    technique="runtime monitor: differential check over framing histories (whole-stream run vs framed run of the same binary), plus instance-interleaving monitor; short part repeated under ASan (thorough: also under valgrind memcheck)",
     level_text=("All framings of short streams and random framings of long streams are executed for every processor configuration and "
                 "compared sample for sample with the unframed run; held on the framings counted in the evidence."),
     level_note="trusted: the adapters that slice the stream; comparison tolerance 1e-12 relative (bitwise disagreement is counted separately)",
